@@ -742,7 +742,23 @@ def compare(op, a, b):
             }[op]()
         except TypeError:
             return Sym('badop', op, a, b)
+    if op in ('in', 'notin') and isinstance(b, Sym) and b.op == 'range' \
+            and all(isinstance(x, int) and not isinstance(x, bool)
+                    for x in b.args) and 1 <= len(b.args) <= 3 and \
+            (len(b.args) < 3 or b.args[2] == 1):
+        ta = typeof(a)
+        if ta is not None and ta <= {'int', 'bool'}:
+            lo, hi = (0, b.args[0]) if len(b.args) == 1 else b.args[:2]
+            inside = and_(compare('ge', a, lo), compare('lt', a, hi))
+            return inside if op == 'in' else not_(inside)
     if op in ('is', 'isnot'):
+        for x, y in ((a, b), (b, a)):
+            if y is None and isinstance(x, Sym) and x.op == 'cond':
+                # distribute over a conditional value
+                return cond(x.args[0], compare(op, x.args[1], None),
+                            compare(op, x.args[2], None))
+            if y is None and x is not None and not isinstance(x, Sym):
+                return op == 'isnot'  # a concrete object is not None
         # identity against None / True / False of something with a known,
         # different type
         for x, y in ((a, b), (b, a)):
